@@ -119,7 +119,7 @@ def run_sharing(chk, spec):
 	tup = tuple(range(n))
 	vs = [Vector(tup) for _ in range(k)]
 	[pool.mark_caller_built(x, id(tup)) for x in vs]     # (a comprehension: a for-loop variable would keep the last sharer alive)
-	chk.judged("sharing", ("sharing", k, n, spec["release"]))
+	chk.judged("sharing", ("sharing", k, n, spec["release"], spec.get("use")))
 	snaps = [list(v) for v in vs]
 	o = call(lambda: vs[0].__setitem__(0, 99))
 	if o.ok:
@@ -140,6 +140,21 @@ def run_sharing(chk, spec):
 	target = vs[0]
 	partners = vs[1:]
 	del vs
+	use = spec.get("use")
+	if use:
+		# the partners are first USED by library operations on a long-lived table; nothing may keep them alive afterwards
+		held = spec.setdefault("_held", [])
+		t = Table([Vector(list(range(n)), name="a"), Vector([str(i % 2) for i in range(n)], name="k")])
+		for p in partners:
+			r = call({
+				"sort_by": lambda: t.sort_by(p), "sort_by-list": lambda: t.sort_by([p, "a"]), "aggregate": lambda: t.aggregate(over=p, count_over="a"),
+				"aggregate-values": lambda: t.aggregate(over="k", sum_over=p), "window": lambda: t.window(over=p, sum_over="a"), "join-key": lambda: t.join(t, p, "a", expect="many_to_many"),
+				"rshift": lambda: t >> p, "rshift-dict": lambda: t >> {"extra": p}, "attr-assign": lambda: setattr(t, "a", p), "mask-of": lambda: t[p == p], "arith": lambda: p + p,
+				"repr-fp": lambda: (repr(p), p.fingerprint()), "table-ctor": lambda: Table([p, p]), "setitem-value": lambda: t.cols()[0].__setitem__(slice(None), p),
+			}[use])
+			if r.ok and use != "repr-fp":
+				held.append(r.value)        # the RESULT stays alive (it must not reference the operand); the table stays alive too
+		held.append(t)
 	while partners:
 		p = partners.pop()
 		if spec["release"] == "write-partner":
@@ -155,7 +170,7 @@ def run_sharing(chk, spec):
 	gc.collect()
 	o = call(lambda: target.__setitem__(0, 5))
 	if not o.ok:
-		chk.fail("a former sharer whose partners were dropped and collected is writable", f"alias/spurious-refusal/former-sharer/{spec['release']}",
+		chk.fail("a former sharer whose partners were dropped and collected is writable", f"alias/spurious-refusal/former-sharer/{spec['release']}" + (f"/partner-was-used-by-{spec['use']}" if spec.get("use") else ""),
 			f"{k} vectors over {tup}; partners deleted and collected; write to the survivor raised {o!r}")
 	elif list(target)[0] != 5:
 		chk.fail("the write takes effect", "alias/write-lost", f"{list(target)}")
@@ -211,6 +226,10 @@ def run(chk):
 			for release in ("del-gc", "del", "cycle"):
 				for rep in range(2):
 					chk.case("sharing", {"sharers": k, "n": n, "release": release}, "sharing")
+	for use in ("sort_by", "sort_by-list", "aggregate", "aggregate-values", "window", "join-key", "rshift", "rshift-dict", "attr-assign", "mask-of", "arith", "repr-fp", "table-ctor", "setitem-value"):
+		for k in (2, 3):
+			for n in (2, 4):
+				chk.case("sharing", {"sharers": k, "n": n, "release": "del-gc", "use": use}, "sharing-after-use")
 	for op in DERIVED_OPS:
 		for kind in ("int", "str", "float"):
 			for n in (1, 2, 5):
